@@ -46,6 +46,8 @@ def to_steps(seq, waits=None, par_delay=0.0):
                                   [["sleep", par_delay], ["send", int(s[-1]), 0, False]]]])
         elif s in ("commit", "abort"):
             steps.append([s])
+        elif s == "commit_tmo":
+            steps.append(["commit_tmo", 0.0004])
         elif s in ("ctx_ok", "ctx_exc"):
             steps.append([s, [["send", 0, 0, False]]] + (["base"] if s == "ctx_exc" and i % 2 else []))
         elif s == "pause":
@@ -97,6 +99,7 @@ def evaluate(case, obs):
     committed_ids = []
     aborted_ids = []
     illegal_after_legal = False
+    undecided = None            # sends of a transaction whose commit call the application stopped waiting for
     recovered = False           # an abort has completed after the abortable error: the producer is as good as new
     legal_seen = False
     ambiguous = 0
@@ -142,6 +145,24 @@ def evaluate(case, obs):
                                            s["t_call"] <= x["t_call"] <= s.get("t_return", 1e18) and "send_id" in x)
                     continue
                 # fall through: the call succeeded, judge it by the pre-error state
+        if undecided is not None:
+            # the application gave up on a commit: the only thing judged is what an abort that REPORTS SUCCESS means
+            if step == "abort" and ok:
+                aborted_ids.extend(undecided)
+                out.label("abort_succeeded_after_abandoned_commit")
+            break
+        if step == "commit_tmo":
+            if state != "IN_TXN" or not ok:
+                break                                   # only the legal, completed form is modelled
+            if s.get("result") == "committed":
+                committed_ids.extend(model_txn_sends)
+                model_txn_sends = []
+                state = "READY"
+                continue
+            undecided = list(model_txn_sends)
+            model_txn_sends = []
+            out.label("commit_abandoned_by_application")
+            continue
         legal = {"READY": {"begin", "ctx_ok", "ctx_exc"},
                  "IN_TXN": {"send", "offsets", "commit", "abort"},
                  "ABORTABLE": {"abort"},
@@ -232,7 +253,7 @@ def evaluate(case, obs):
                          {"arrival": a.seq, "t_written": a.t_written, "t_err": t_err})
                 break
     # EndTxn only for transactions that the application ended (no faults: exact count)
-    if err_kind is None:
+    if err_kind is None and undecided is None:
         n_end = sum(1 for a in c.arrivals if a.api == "end_txn" and a.applied and a.extra.get("txn_index") is not None
                     and not a.extra.get("repeat"))
         ended_nonempty = 0
@@ -248,7 +269,7 @@ def evaluate(case, obs):
     for f in c07_out.failures:
         if f.clause in ("add_before_produce", "no_end_with_inflight", "txn_scope"):
             out.failures.append(f)
-    out.nontrivial = bool(illegal_after_legal or fired)
+    out.nontrivial = bool(illegal_after_legal or fired or undecided is not None)
     if illegal_after_legal:
         out.label("illegal_after_legal_prefix")
     if fired:
@@ -365,6 +386,25 @@ def concurrent_abortable_cases(shard, nshards):
                                         lat=[0.001], same_leader=same, par_delay=d)
 
 
+ABANDONED_SEQS = [["begin", "send0", "commit_tmo", "abort"], ["begin", "send0", "send1", "commit_tmo", "abort"],
+                  ["begin", "send0", "offsets", "commit_tmo", "abort"], ["begin", "send1", "commit_tmo", "abort", "begin"]]
+
+
+def abandoned_commit_cases(shard, nshards):
+    """The application wraps commit_transaction() in wait_for() and gives up while EndTxn(COMMIT) is on its way (slow
+    coordinator reply), then calls abort_transaction(): an abort that reports success means nothing of the transaction
+    is visible; if the commit can no longer be stopped, the abort has to say so."""
+    i = 0
+    for seq in ABANDONED_SEQS:
+        for delay in (0.002, 0.01, 0.05):
+            for waits in ([1], [0]):
+                for same in (False, True):
+                    i += 1
+                    if i % nshards == shard:
+                        yield make_case(seq, {"sel": "end_txn", "k": 0, "act": "delay", "code": 0, "delay": delay}, waits=waits,
+                                        rng_seed=21, lat=[0.001], same_leader=same)
+
+
 def strategy():
     from hypothesis import strategies as st
 
@@ -421,6 +461,8 @@ def campaigns(tier):
             Campaign("mixed_authorization", "enum", execute=execute, cases=mixed_authorization_cases, exhaustive=True,
                      setup=TS.setup),
             Campaign("concurrent_abortable", "enum", execute=execute, cases=concurrent_abortable_cases, exhaustive=True,
+                     setup=TS.setup),
+            Campaign("abandoned_commit", "enum", execute=execute, cases=abandoned_commit_cases, exhaustive=True,
                      setup=TS.setup),
             Campaign("partial_produce_fault", "enum", execute=execute, cases=partial_fault_cases, exhaustive=True,
                      setup=TS.setup),
